@@ -64,6 +64,9 @@ CLAIMED['C20'] = ("runtime monitoring by reflection: every exported method of th
 CLAIMED['C10'] = ("Go race detector (-race build, reports counted and deduplicated from GORACE log files) over 2/4/8/16 goroutines sharing operands without synchronisation; plus purity/determinism monitors: operand snapshots around every call, 24-64 in-process repetitions per call (fresh map iteration orders), digest tables recomputed in separate worker processes (different GOMAXPROCS/sharding) and compared by the driver",
   "Exploration by runtime monitoring: an operation table of the public read API (40 geometry operations + R-tree searches) runs over a pool of shared valid operands (incl. shapes whose result rings/lines tie on their first vertex) - about 1.9k calls x 25-65 repetitions, every digest recomputed in a second set of processes, and about 90k concurrent calls under the race detector with the measured number of call pairs that overlapped on the same operand reported in the evidence. No race report and identical digests on everything observed.",
   "races are only visible on paths the table drives; repetition samples map orders, it does not enumerate them", "DESIGN.md §3 C10")
+CLAIMED['C03'] = ("reference-model monitor: definitional exact-arithmetic validity/simplicity oracle (two independent connectedness criteria) compared with Validate/IsSimple/IsRing/IsClosed and with the validating decoders; metamorphic monitor over every representation (ring rotation, direction, hole/member permutation, translation, reflection)",
+  "Exploration by runtime monitoring with exhaustive sub-spaces: tens of thousands of unvalidated lattice candidates per run with vertex-sharing bias and targeted families (hole-in-hole sharing a vertex, touch chains, repeated vertices) under 8-24 representations each; every closed 3- and 4-vertex ring of the 3x3 grid; pairs of lattice triangles of the 4x4 grid as shell+hole and as members; pairs of triangular holes in a fixed shell under all 36 start/direction representations (strided in quick, complete in thorough); NaN/Inf at every ordinate position.",
+  "lattice inputs only (both sides exact); cases where the oracle's two connectedness criteria disagree are skipped and counted (none observed)", "DESIGN.md §3 C03")
 REASONS = {}
 hooks_commits = subprocess.run(['git','-C','/repo','log','--format=%h %s'],capture_output=True,text=True).stdout.splitlines()
 hook_commits = [l.split()[0] for l in hooks_commits if l.split(' ',1)[1].startswith('verif hook')]
